@@ -64,7 +64,9 @@ impl Reservoir {
         if idx < self.values.len() {
             self.values[idx].store(value.to_bits(), Relaxed);
         } else {
-            let maybe_idx = fastrand(idx);
+            // Algorithm R: the element at (zero-based) position `idx` replaces a uniformly chosen
+            // slot among `0..=idx`, and is only kept if that slot lies within the reservoir.
+            let maybe_idx = fastrand(idx + 1);
             if maybe_idx < self.values.len() {
                 self.values[maybe_idx].store(value.to_bits(), Relaxed);
             }
